@@ -80,3 +80,55 @@ func VerifC07LockProtects() {
 		vrt.Reach("unlocked")
 	}
 }
+
+// VerifC07LockedSplit: a split object (first part F, last part L carrying the
+// parent header P) is stored and P is locked; a tombstone of P arrives through
+// the ordinary put or through the batch put of a metabase rebuild. It is not
+// accepted, and neither P nor any of its parts gets a garbage mark: GC has
+// nothing of the locked object to delete.
+func VerifC07LockedSplit() {
+	ep := &vmEpoch{e: 3}
+	db := vmNewDB(ep)
+	first := vmObj(0, 5, object.TypeRegular, -1, 4)
+	noID := vmObj(0, 0, object.TypeRegular, -1, 0)
+	noID.ResetID()
+	first.SetParent(noID)
+	par := vmObj(0, 4, object.TypeRegular, -1, 8)
+	last := vmObj(0, 6, object.TypeRegular, -1, 4)
+	last.SetParent(par)
+	last.SetParentID(vmOID(4))
+	last.SetFirstID(vmOID(5))
+	vrt.Assert(db.Put(first) == nil, "put first part")
+	vrt.Assert(db.Put(last) == nil, "put last part")
+	l := vmObj(0, 3, object.TypeLock, 10, 0)
+	l.AssociateLocked(vmOID(4))
+	vrt.Assert(db.Put(l) == nil, "put lock of the split object")
+	ep.e = vrt.U64("epoch")
+	vrt.Assume(ep.e >= 3 && ep.e <= 10) // the lock is live
+
+	ts := vmObj(0, 2, object.TypeTombstone, 100, 0)
+	ts.AssociateDeleted(vmOID(4))
+	if vrt.Bool("tombstoneArrivesInRebuildBatch") {
+		// the batch put skips objects that are refused for a logical reason
+		extra := vmObj(0, 9, object.TypeRegular, -1, 1)
+		vrt.Assert(db.PutBatch([]*object.Object{ts, extra}) == nil, "batch put")
+		ok, err := db.Exists(vmAddr(0, 2), false)
+		vrt.Assert(!ok || err != nil, "a tombstone for a locked split object is not stored by the batch put")
+	} else {
+		vrt.Assert(errors.Is(db.Put(ts), apistatus.ErrObjectLocked), "a tombstone for a locked split object is rejected")
+	}
+	gb, gerr := db.GetGarbage(10)
+	vrt.Assert(gerr == nil, "garbage listing works")
+	for _, b := range gb {
+		for _, id := range b.Objects {
+			vrt.Assert(id != vmOID(4) && id != vmOID(5) && id != vmOID(6), "a refused tombstone leaves no garbage mark on the locked object or its parts")
+		}
+	}
+	for _, o := range []byte{5, 6} {
+		ok, err := db.Exists(vmAddr(0, o), false)
+		vrt.Assert(ok && err == nil, "the parts of a locked split object stay available after the refused tombstone")
+	}
+	locked, lerr := db.IsLocked(vmAddr(0, 4))
+	vrt.Assert(lerr == nil && locked, "the split object is still locked")
+	vrt.Reach("locked-split")
+}
